@@ -10,6 +10,7 @@ from ..nf import NF, Atom, Undecided, app, atoms_of, lift, nf_equal, nf_max, sin
 from ..values import NONE, Cond, ListV, NoneV, Num, ObjV, OpaqueV, StrV, TupleV, valkey
 from .c02 import find_driver_call
 from .common import (
+    is_data_src,
     ABSTRACT_SUMMARIES,
     N,
     Pdim,
@@ -412,7 +413,7 @@ def check_nonempty(ctx):
             args = {}
             for p in drv.params:
                 src = roles.get(p, "")
-                if src.endswith(".values"):
+                if is_data_src(src):
                     args[p] = data_sym(ex)
                 elif src.startswith("self._"):
                     args[p] = abstract_scorer(ex, ctx.P, "skchange.change_scores.base.BaseChangeScore", "score", width=3)
